@@ -6,7 +6,7 @@ import Sentinel.Model.Breaker
 Ops: `clock <ms>`, `load <rule>…` / `loadres <res> <rule>…` (any number of times: `LoadRules` / `LoadRulesOfResource`; valid
 rules are numbered consecutively over all loads; result = number of valid rules), rule syntax: `load <rule>…` (rule = `res,kind,retry,minReq,statI,buckets,maxRt,f:<thr bits>,probeNum`,
 `kind` 0 slow-ratio / 1 error-ratio / 2 error-count) `=> <number of valid rules>`, `entry <id> <res> [#<batch>]`
-`=> pass | block <rule index>`, `exit <id> [err]`, `state <res>` `=> [<id><C|O|H>…]` (every identity ever handed out for the resource), `log` `=> [events since the last log]`. -/
+`=> pass | block <rule index>`, `exit <id> [err[:<type>:<how>]]`, `clearres <res>`, `state <res>` `=> [<id><C|O|H>…]` (every identity ever handed out for the resource), `log` `=> [events since the last log]`. -/
 namespace Sentinel.Drv.C03
 open Sentinel.LA Sentinel.CB Sentinel.Drv
 
@@ -114,6 +114,9 @@ def stepD {W} (ops : Rule → WinOps W) (d : DSt W) (ts : List String) (_ : Stri
         let ids := (List.range vs.length).zip vs |>.map fun p => (d.s.next + p.1, p.2.res)
         let d' := (exec ops d (.loadRes res vs)).1
         ({ d' with ids := d.ids ++ ids }, some (toString vs.length))
+  | ["clearres", res] =>
+      -- `ClearRulesOfResource(res)` = `LoadRulesOfResource(res, nil)`
+      if d.s.now = 0 ∨ res.isEmpty then (d, some "bad-op") else ((exec ops d (.loadRes res [])).1, none)
   | "entry" :: id :: res :: rest =>
       -- optional `#<n>` = `WithBatchCount(n)`; the machine ignores it
       let batch? : Option Nat := match rest with
@@ -130,8 +133,20 @@ def stepD {W} (ops : Rule → WinOps W) (d : DSt W) (ts : List String) (_ : Stri
       | _, _ => (d, some "bad-op")
   | "exit" :: id :: rest => match id.toNat? with
       | some id =>
-        if rest ≠ [] ∧ rest ≠ ["err"] then (d, some "bad-op") else
-        ((exec ops d (.exit id (rest == ["err"]))).1, none)
+        -- `err[:<type>:<how>]`: whatever the error's dynamic type (plain | wrapped | block | niltyped) and however
+        -- it is reported (trace | exitopt | seterr), a non-nil error makes this an error completion
+        let err? : Option Bool := match rest with
+          | [] => some false
+          | [e] => match e.splitOn ":" with
+            | ["err"] => some true
+            | ["err", ty, how] =>
+              if ["plain", "wrapped", "block", "niltyped"].contains ty ∧ ["trace", "exitopt", "seterr"].contains how
+              then some true else none
+            | _ => none
+          | _ => none
+        match err? with
+        | none => (d, some "bad-op")
+        | some err => ((exec ops d (.exit id err)).1, none)
       | none => (d, some "bad-op")
   | ["state", res] =>
       -- every identity ever handed out for this resource, in order, with its last known state
